@@ -1,10 +1,12 @@
-SPECIFICATION SSpec
+SPECIFICATION TSpec
 CONSTANTS
   NA = 2
   Rounds = 2
   PerRound = 1
   NotifyMode = "token"
-  TempApps = {}
+  TempApps = {1, 2}
   ExitMode = "recheck"
-INVARIANTS FIFO DrainSound NoHang LockOK
+INVARIANTS FIFO LockOK
+CONSTRAINT Mark
+POSTCONDITION Accepted
 CHECK_DEADLOCK FALSE
